@@ -322,11 +322,11 @@ class ThriftGen:
 
     def ty(self, fi, depth, self_ref=None, inner=False):
         """a field type; self_ref = (fi, name) of the struct being built when recursion through containers is allowed.
-        `uuid` is only produced outside containers (finding F-14h: uuid elements do not compile)."""
+        (uuid is produced inside containers and as a typedef target too: finding F-14h is repaired)"""
         r = self.r
         k = r.random()
         if depth <= 0 or k < 0.45:
-            return ("base", r.choice([b for b in BASE if not (inner and b == "uuid")]))
+            return ("base", r.choice(BASE))
         if k < 0.55:
             return ("list", self.ty(fi, depth - 1, self_ref, True))
         if k < 0.62:
@@ -512,8 +512,6 @@ class ThriftGen:
                 f["items"].append(dict(kind="enum", name=nm, members=members, complete=True))
             elif k == "typedef":
                 t = self.ty(fi, 2)
-                if t == ("base", "uuid"):       # typedef of uuid: finding F-14h
-                    t = ("base", "i64")
                 f["items"].append(dict(kind="typedef", name=nm, ty=t, complete=True, annos=[]))
             elif k in ("struct", "exception"):
                 it = dict(kind=k, name=nm, fields=[], complete=False, annos=[])
